@@ -27,6 +27,8 @@ BROKEN = [
     "{ RdV = (RsV; }",
     "{ RdV = RsV $ 1; }",
     "{ RdV = RsV +* ; }",
+    # a '%' right next to the error position
+    "{ RdV = RsV % $ 3; }", "{ RdV = (RsV % 4; }", "{ RdV = RsV %% 4; }", "{ RdV = fatal(\"%s %d\") $; }",
     "}",
     "{ if (PuV { RdV = RsV; } }",
     "{ RdV = 09abc; }",
@@ -237,6 +239,8 @@ class EngineP(EngineBase):
                 name += "_"
             names.add(name)
             tasks.append({"name": name, "parts": parts})
+            if ch.chance(1, 8, "tuple-parts"):
+                tasks[-1]["tuple"] = True
         # a run is a short *history* of Parser.parse calls in one process: later calls reuse names of earlier
         # ones with other behaviours (module/class-level state of the parser must not leak between calls)
         ncalls = ch.weighted([(1, 5), (2, 3), (3, 1)], "ncalls")
@@ -262,10 +266,13 @@ class EngineP(EngineBase):
                 if nm not in {x["name"] for x in tasks if x.get("call", 0) == t.get("call", 0)}:
                     tasks.append({"name": nm, "parts": [cat], "call": t.get("call", 0)})
         wl = {"mode": mode, "tasks": tasks, "plan": plan}
+        wl["start"] = "spawn" if ch.chance(3, 10, "start-method") else "fork"
+        # the clock of the workers and the threads of the caller belong to the simulated environment
+        wl["stale_timers_fire"] = ch.chance(1, 2, "stale-timers")
+        wl["fork_with_held_locks"] = wl["start"] == "fork" and ch.chance(1, 4, "held-locks")
         if ncalls > 1 and ch.chance(1, 3, "overlap"):
             wl["overlap"] = True
             wl["overlap_at"] = ch.randint(0, 3, "overlap-at")
-        wl["start"] = "spawn" if ch.chance(3, 10, "start-method") else "fork"
         if ch.chance(1, 20, "pool-create-fails"):
             wl["pool_fail"] = ch.choice(["OSError", "AssertionError"], "pool-fail-kind")
         return wl
@@ -283,7 +290,8 @@ class EngineP(EngineBase):
 
     def describe(self, wl):
         return {"mode": wl["mode"], "plan": wl["plan"],
-                "start": wl.get("start"), "pool_fail": wl.get("pool_fail"), "overlap": wl.get("overlap"), "overlap_at": wl.get("overlap_at"), "cpus": wl.get("cpus"), "n_tasks": len(wl["tasks"]),
+                "start": wl.get("start"), "pool_fail": wl.get("pool_fail"), "stale_timers_fire": wl.get("stale_timers_fire"),
+                "fork_with_held_locks": wl.get("fork_with_held_locks"), "overlap": wl.get("overlap"), "overlap_at": wl.get("overlap_at"), "cpus": wl.get("cpus"), "n_tasks": len(wl["tasks"]),
                 "tasks": [{"name": t["name"], "call": t.get("call", 0), "parts": [p[:80] + (f"...[{len(p)} chars]" if len(p) > 80 else "") for p in t["parts"]]}
                           for t in wl["tasks"][:40]]}
 
@@ -309,6 +317,15 @@ class EngineP(EngineBase):
         multiprocessing.pool.Pool = simpool.SimPool
         saved.append((lark, "Lark", lark.Lark))
         lark.Lark = FaultyLark
+        # timers: the simulator owns the clock of the pool workers
+        import threading
+        real_timer = threading.Timer
+        for k, v in list(vars(P).items()):
+            if v is real_timer:
+                saved.append((P, k, v))
+                setattr(P, k, simpool.SimTimer)
+        saved.append((threading, "Timer", real_timer))
+        threading.Timer = simpool.SimTimer
         # concurrent.futures route: same scheduler
         import concurrent.futures as cf
         import concurrent.futures.process as cfp
@@ -410,6 +427,9 @@ class EngineP(EngineBase):
             cpus = int(workload["cpus"])
         simpool.SimPool.cpus = cpus
         simpool.SimPool.start_method = workload.get("start", "fork")
+        simpool.SimTimer.fire_stale = bool(workload.get("stale_timers_fire"))
+        simpool.SimTimer.armed = []
+        simpool.SimPool.fork_with_held_locks = bool(workload.get("fork_with_held_locks"))
         out.count("start_" + simpool.SimPool.start_method)
         injected_create = None
         if workload.get("pool_fail"):
@@ -430,7 +450,8 @@ class EngineP(EngineBase):
 
         def run_call(ci):
             tasks_ = [t for t in all_tasks if t.get("call", 0) == calls[ci]]
-            insn_behavior = {t["name"]: list(t["parts"]) for t in tasks_}
+            # (parts as a list, or as the tuple that split_compounds() produces)
+            insn_behavior = {t["name"]: (tuple(t["parts"]) if t.get("tuple") else list(t["parts"])) for t in tasks_}
             result_, raised_ = None, None
             try:
                 result_ = self.P.Parser.parse(insn_behavior)
@@ -464,6 +485,10 @@ class EngineP(EngineBase):
             if any(results[ci][1] is not None for ci in group):
                 break
         out.count("overlapping_calls", stats.get("reentries", 0))
+        out.count("runs_with_stale_timer_policy", 1 if workload.get("stale_timers_fire") else 0)
+        out.count("runs_forked_with_held_locks_policy", 1 if workload.get("fork_with_held_locks") else 0)
+        out.count("workers_stuck", stats.get("worker_stuck", 0))
+        out.count("tasks_with_tuple_parts", sum(1 for t in all_tasks if t.get("tuple")))
 
         for ci, call in enumerate(calls):
             if ci not in results:
